@@ -21,7 +21,9 @@ Combos1 == {
   Cfg(<<"module_a", "variance">>, "linear", << <<1, -1>> >>, <<2>>, <<0>>, TRUE),
   Cfg(<<"module_a", "module_prev", "prev_hedge">>, "relu", << <<1, -1, 1>> >>, <<3>>, <<1>>, FALSE),
   Cfg(<<"spot", "log_spot", "expiry_time">>, "linear", << <<1, -3, 2>> >>, <<0>>, <<1>>, TRUE),
-  Cfg(<<"zeros", "ones", "underlier_spot">>, "linear", << <<5, 3, -1>> >>, <<0>>, <<2>>, TRUE)
+  Cfg(<<"zeros", "ones", "underlier_spot">>, "linear", << <<5, 3, -1>> >>, <<0>>, <<2>>, TRUE),
+  \* a negative proportional rate (a rebate): "any proportional cost rates"
+  Cfg(<<"moneyness", "volatility">>, "linear", << <<2, -1>> >>, <<1>>, <<-1>>, TRUE)
 }
 \* configurations whose derivative carries a clause (payoff -> 2 * payoff + 1)
 WithClause(c) == c @@ [clause |-> "double_plus_one"]
@@ -43,6 +45,9 @@ Combos2 == {
   Cfg(<<"moneyness", "variance", "prev_hedge">>, "linear", << <<1, 2, 1, 0>>, <<-1, 1, 1, -1>> >>, <<0, 1>>, <<1, 2>>, TRUE),
   Cfg(<<"prev_hedge", "time_to_maturity">>, "linear", << <<0, 1, 4>>, <<1, 0, -4>> >>, <<1, 0>>, <<>>, TRUE),
   Cfg(<<"module_prev", "max_moneyness">>, "relu", << <<1, -2>>, <<-1, 2>> >>, <<0, 0>>, <<0, 1>>, TRUE),
-  Cfg(<<"barrier_up_2", "volatility", "prev_hedge">>, "linear", << <<1, 1, 0, 0>>, <<2, -1, 0, 0>> >>, <<0, 0>>, <<1, 1>>, FALSE)
+  Cfg(<<"barrier_up_2", "volatility", "prev_hedge">>, "linear", << <<1, 1, 0, 0>>, <<2, -1, 0, 0>> >>, <<0, 0>>, <<1, 1>>, FALSE),
+  \* no instrument charges, one pays a rebate / one free and one rebate
+  Cfg(<<"moneyness", "variance">>, "linear", << <<1, 2>>, <<-1, 1>> >>, <<0, 1>>, <<-1, 0>>, TRUE),
+  Cfg(<<"moneyness", "prev_hedge">>, "linear", << <<1, 1, 0>>, <<-1, 0, 1>> >>, <<1, 0>>, <<0, -2>>, FALSE)
 }
 =============================================================================
